@@ -479,7 +479,7 @@ def case_script(cid, case, top):
     ls += ["new"] + cfg + ["flags %d" % flags] + src + ["load", "dump", "echo NAME M2", "destroy"]
     ls += ["new"] + cfg + ["flags %d" % other] + src + ["echo OTHER", "load", "dump", "echo NAME O", "check", "destroy"]
     ls += ["echo SAME M M2", "echo SAME M X"]
-    ls += ["echo DISALLOWED O M" if flags & 1 else "echo DISALLOWED M O"]
+    ls += ["echo DISALLOWED O M", "echo INCLVIEW M"] if flags & 1 else ["echo DISALLOWED M O", "echo INCLVIEW O"]
     ls += ["unhide", "echo END %d" % cid]
     return ls
 
@@ -558,22 +558,22 @@ def verdicts(r):
             out.append(("wf:" + ",".join(clauses), "loaded topology violates WF clause(s): " + l[:300]))
         elif l.startswith("levels DIFF"):
             out.append(("correspondence:levels", "model of hwloc_connect_levels disagrees with the implementation: " + l[:300]))
-        elif l == "check abort":
-            out.append(("topology_check-abort", "hwloc_topology_check() aborts on the loaded topology"))
-        elif l == "check2 abort":
-            out.append(("topology_check-abort:xml-reload", "hwloc_topology_check() aborts on the topology reloaded from its XML export"))
+        elif l.startswith("check abort"):
+            out.append(("topology_check-abort:" + l[12:].strip(), "hwloc_topology_check() aborts on the loaded topology: " + l))
+        elif l.startswith("check2 abort"):
+            out.append(("topology_check-abort:xml-reload:" + l[13:].strip(), "hwloc_topology_check() aborts on the topology reloaded from its XML export: " + l))
         elif l.startswith("xmlrt export=") and not l.endswith("load=0"):
             out.append(("xml-reload-fails", "XML export of a loaded topology cannot be exported/reloaded: " + l))
         elif l.startswith("same M M2 DIFF"):
             fields = sorted(set(re.findall(r"(\w+)=[^ ]*->", l)))
             out.append(("nondeterministic:" + ",".join(fields), "two loads of the same snapshot and configuration differ: " + l[:400]))
-        elif l.startswith("same M X DIFF"):
+        elif l.startswith("same M X DIFF") and not any(x.startswith("wf VIOLATION") for x in lines[:other_at]):
             out.append((xml_diff_key(l), "topology reloaded from its own XML export differs: " + l[:500]))
         elif l.startswith("disallowed VIOLATION"):
             clauses = sorted(set(re.findall(r"([a-z-]+)@", l)))
             out.append(("disallowed:" + ",".join(clauses), "INCLUDE_DISALLOWED view vs default view: " + l[:300]))
     if main_loads and other_loads:
-        flags_incl_is_other = "echo DISALLOWED M O" in lines
+        flags_incl_is_other = "echo INCLVIEW O" in lines
         d_ok = ("rc=0" in main_loads[0]) if flags_incl_is_other else ("rc=0" in other_loads[0])
         i_ok = ("rc=0" in other_loads[0]) if flags_incl_is_other else ("rc=0" in main_loads[0])
         if d_ok and not i_ok:
